@@ -494,21 +494,9 @@ func (fi *funcInfo) findSubmatch(ins ssa.Instruction) bool {
 	if sc == nil || calleeName(sc) != "(*regexp.Regexp).FindSubmatch" {
 		return false
 	}
-	// receiver: load of a package-level regexp initialised with MustCompile(const)
-	g := globalLoad(call.Call.Args[0])
-	if g == nil {
-		return false
-	}
-	pat := ""
-	eachInstr(g.Pkg.Func("init"), func(i2 ssa.Instruction) {
-		if st, ok := i2.(*ssa.Store); ok && st.Addr == ssa.Value(g) {
-			if c2, ok := st.Val.(*ssa.Call); ok && len(c2.Call.Args) == 1 {
-				if s, ok := constString(c2.Call.Args[0]); ok {
-					pat = s
-				}
-			}
-		}
-	})
+	// receiver: a regexp compiled from a constant pattern (package-level variable, lazily
+	// compiled value, helper that returns it)
+	pat := regexpPattern(call.Call.Args[0], 0)
 	if pat == "" {
 		return false
 	}
@@ -697,4 +685,103 @@ func (fi *funcInfo) minMaxSplit(a string, call *ssa.Call, goals, facts []Lin, de
 		}
 	}
 	return true
+}
+
+// regexpPattern: the constant pattern of the *regexp.Regexp value v: regexp.MustCompile(const),
+// a package-level variable initialised with such a value, the result of a function (or of a
+// sync.OnceValue wrapper around a function) all of whose returns are such values.
+func regexpPattern(v ssa.Value, depth int) string {
+	if depth > 4 {
+		return ""
+	}
+	v = origin(v)
+	switch x := v.(type) {
+	case *ssa.Call:
+		if sc := x.Call.StaticCallee(); sc != nil {
+			switch calleeName(sc) {
+			case "regexp.MustCompile", "regexp.MustCompilePOSIX":
+				if len(x.Call.Args) == 1 {
+					if s, ok := constString(x.Call.Args[0]); ok {
+						return s
+					}
+				}
+				return ""
+			}
+			if inMod(sc) && len(sc.Blocks) > 0 {
+				return regexpPatternOfFunc(sc, depth+1)
+			}
+			return ""
+		}
+		// a call of a function value: sync.OnceValue(f) held in a package-level variable
+		if g := globalLoad(x.Call.Value); g != nil {
+			if init := globalInit(g); init != nil {
+				if c2, ok := init.(*ssa.Call); ok {
+					if sc := c2.Call.StaticCallee(); sc != nil && strings.HasPrefix(calleeName(sc), "sync.OnceValue") && len(c2.Call.Args) == 1 {
+						switch f := origin(c2.Call.Args[0]).(type) {
+						case *ssa.Function:
+							return regexpPatternOfFunc(f, depth+1)
+						case *ssa.MakeClosure:
+							if fn, ok := f.Fn.(*ssa.Function); ok {
+								return regexpPatternOfFunc(fn, depth+1)
+							}
+						}
+					}
+				}
+			}
+		}
+	case *ssa.UnOp:
+		if g := globalLoad(x); g != nil {
+			if init := globalInit(g); init != nil {
+				return regexpPattern(init, depth+1)
+			}
+		}
+	}
+	return ""
+}
+
+func regexpPatternOfFunc(f *ssa.Function, depth int) string {
+	pat := ""
+	for _, r := range returns(f) {
+		if len(r.Results) != 1 {
+			return ""
+		}
+		p := regexpPattern(r.Results[0], depth)
+		if p == "" || (pat != "" && p != pat) {
+			return ""
+		}
+		pat = p
+	}
+	return pat
+}
+
+// globalInit: the value the package initialiser stores into a package-level variable (nil if it
+// is stored more than once).
+func globalInit(g *ssa.Global) ssa.Value {
+	var val ssa.Value
+	n := 0
+	if g.Pkg == nil || g.Pkg.Func("init") == nil {
+		return nil
+	}
+	eachInstr(g.Pkg.Func("init"), func(i2 ssa.Instruction) {
+		if st, ok := i2.(*ssa.Store); ok && st.Addr == ssa.Value(g) {
+			val = st.Val
+			n++
+		}
+	})
+	if n != 1 {
+		return nil
+	}
+	// never assigned anywhere else
+	for _, fn := range feCtx.modFuncs {
+		other := false
+		eachInstr(fn, func(i2 ssa.Instruction) {
+			if st, ok := i2.(*ssa.Store); ok && st.Addr == ssa.Value(g) && fn != g.Pkg.Func("init") {
+				other = true
+			}
+		})
+		if other {
+			return nil
+		}
+	}
+	return val
 }
